@@ -400,6 +400,31 @@ pub mod commit_overlay {
 			Ok(())
 		}
 
+		/// Check that every operation is valid for the column. Has no side effects.
+		pub fn check_operations(&self, options: &Options) -> Result<()> {
+			let ref_counted = options.columns[self.col as usize].ref_counted;
+			for change in self.changes.iter() {
+				match change {
+					Operation::Set(..) | Operation::Dereference(..) => (),
+					Operation::Reference(..) =>
+						if !ref_counted {
+							return Err(Error::InvalidInput(format!(
+								"No Rc for column {}",
+								self.col
+							)))
+						},
+					Operation::InsertTree(..) |
+					Operation::ReferenceTree(..) |
+					Operation::DereferenceTree(..) =>
+						return Err(Error::InvalidInput(format!(
+							"Invalid operation for column {}",
+							self.col
+						))),
+				}
+			}
+			Ok(())
+		}
+
 		pub fn copy_to_overlay(
 			&self,
 			overlay: &mut BTreeCommitOverlay,
